@@ -25,7 +25,11 @@ passes a generator expression to a parameter with that precondition is a violati
 What is assumed (listed in every report, kind='assumed'): callees that cannot be resolved (callbacks, numpy / pandas /
 stdlib functions outside the table below) do not mutate their arguments and consume iterator arguments at most once;
 implicit protocol methods (__getitem__, __len__, __iter__, __contains__, __eq__, __getattr__, property getters) of a
-receiver whose class is not known do not mutate it.
+receiver whose class is not known do not mutate it; methods are resolved statically in the class the analysed function belongs to
+(or the class learnt from `type(x) == type(self)` / `isinstance(x, C)`), i.e. no overriding in subclasses; an augmented assignment with a
+syntactically numeric right-hand side acts on a number (not a numpy array); mutable default arguments are not tracked; exception handlers
+start from the join of the states before and after the `try` body.  With frame_report(..., protocol=True) the protocol methods of the classes
+involved are checked to be effect-free instead of being assumed.
 """
 import ast, os
 from . import front
